@@ -663,3 +663,34 @@ Section Finish.
     if rejected then HsECHRejection retry
     else HsComplete true (v_config_server_name v).
 End Finish.
+
+(* ------------------------------------------------------------------ *)
+(* the server's configured ECH keys over a history of connections       *)
+(* ------------------------------------------------------------------ *)
+(* Config.EncryptedClientHelloKeys entry: marshalled ECHConfig, SendAsRetry *)
+Definition ech_key := (bytes * bool)%type.
+
+(* ech.go:630-646 buildRetryConfigList: the SendAsRetry configs in configuration order, u16-length-prefixed;
+   nil when there is none. The key slice is only read. (Assumes the configs fit the 2-byte prefix.) *)
+Definition retry_list (keys : list ech_key) : option bytes :=
+  match filter snd keys with
+  | [] => None
+  | cs => Some (p16lp (flat_map fst cs))
+  end.
+
+(* ech.go:572-626 processECHClientHello: trial decryption with every configured key; the HPKE info string is
+   "tls ech\0" ‖ config, so with a correct HPKE exactly a key whose config the client used opens the payload *)
+Definition server_accepts (keys : list ech_key) (client_cfg : bytes) : bool :=
+  existsb (fun k => bytes_eqb (fst k) client_cfg) keys.
+
+(* one served connection: (ECH accepted, retry configs sent in EncryptedExtensions when it was not,
+   handshake_server_tls13.go:804-811) and the configured key list afterwards *)
+Definition server_step (keys : list ech_key) (client_cfg : bytes) : (bool * option bytes) * list ech_key :=
+  let a := server_accepts keys client_cfg in
+  ((a, if a then None else retry_list keys), keys).
+
+Fixpoint server_history (keys : list ech_key) (cfgs : list bytes) : list (bool * option bytes) :=
+  match cfgs with
+  | [] => []
+  | c :: r => let '(o, keys') := server_step keys c in o :: server_history keys' r
+  end.
